@@ -20,6 +20,10 @@ THEOREMS = [
     "GitAi.Tracker.line_char_roundtrip",
     "GitAi.Tracker.witness_roundtrip_human",
     "GitAi.Tracker.witness_roundtrip_overlap",
+    "GitAi.Tracker.line_winner_has_non_ws",
+    "GitAi.Tracker.whitespace_only_author_never_wins",
+    "GitAi.Tracker.witness_reindent_below_ai_line",
+    "GitAi.Tracker.witness_marker_wins_line",
     "GitAi.Tracker.identity_update",
     "GitAi.Tracker.identity_keeps_lines",
     "GitAi.Tracker.identity_keeps_cover",
